@@ -428,6 +428,8 @@ func init() {
 		Gen: func(r *RNG, tier string, n int, emit func(op int, toks ...Tok)) {
 			emit(1801, TI(0))
 			emit(1801, TI(eraEndNanos-1))
+			emit(1802, TI(eraEndNanos-1), TI(64000000000-3816)) // sent in the last nanosecond of the era, received 64 s later
+			emit(1802, TI(eraEndNanos-1000), TI(5000))
 			emit(1802, TI(0), TI(0))
 			emit(1802, TI(63999999999), TI(64000000000-3815-1))
 			emit(1803, TI(0), TI(0))
@@ -457,9 +459,8 @@ func init() {
 							delay = maxDelay - 1
 						}
 					}
-					if send+delay >= eraEndNanos {
-						delay = eraEndNanos - 1 - send
-					}
+					// the property restricts the SEND instant to the era; the packet may arrive up to 64 s after
+					// its end (the receive instant's NTP seconds wrap, and the 64-second arithmetic does not care)
 					emit(1802, TI(send), TI(delay))
 				default:
 					const lim = (1 << 31) * 1000000000
